@@ -18,6 +18,7 @@ symbols may contain spaces, parentheses and any Unicode scalar value.
   base   ::= ua | empty                          lookups try the given table first, then the base
 
   rv <base> <table> <int> <name>          → ok x… | err:<Class>          render_value
+  rvb <base> <table> <int> <name>         → the exit the top-level call takes (evidence histogram only)
   rm <base> <table> <int> <name>          → ok x… | err:<Class>          render_marker
   rc <base> <table> <name> <prev>         → resolved dict and previous_types after resolve_counter
                                             (<prev> ::= none | (name …))
@@ -160,6 +161,11 @@ def handle (cmd : String) (args : List Sx) : Option String :=
     let v ← v.int?
     let name ← cname? name
     pure (showOut (renderValueTop cs v name))
+  | "rvb", [base, table, v, name] => do
+    let cs ← styles? base table
+    let v ← v.int?
+    let name ← cname? name
+    pure (topBranch cs v name)
   | "rm", [base, table, v, name] => do
     let cs ← styles? base table
     let v ← v.int?
